@@ -476,6 +476,7 @@ def oracle_isolation(cfg, ops, steps):
     out = []
     prev = None
     last_root = {}
+    last_eq = {}
     for st, op in zip(steps, ops):
         p = op.split()
         tg = targets(op)
@@ -510,6 +511,18 @@ def oracle_isolation(cfg, ops, steps):
             last_root[r] = st.result
         if p[0] == 'clone' and len(p) == 3 and p[1] in last_root and st.result == 'ok':
             last_root[p[2]] = last_root[p[1]]        # a clone shows the same root
+        # equality observed between two flushed handles is stable while neither of them shows anything different:
+        # whatever was done to either in between (hashing, rebasing, self-deduplication, flushing nothing) or to others
+        if p[0] == 'eq' and len(p) == 3 and st.result in ('ok:true', 'ok:false'):
+            a, b = st.O.get(p[1]), st.O.get(p[2])
+            if a is not None and b is not None and a.get('pend') == '0' and b.get('pend') == '0':
+                key = tuple(sorted((p[1], p[2])))
+                snap = (dict(a), dict(b)) if key == (p[1], p[2]) else (dict(b), dict(a))
+                old = last_eq.get(key)
+                if old is not None and old[1] == snap and old[0] != st.result:
+                    out.append(Finding(st.n, 'equality of %s and %s changed from %s to %s although neither shows anything different' % (
+                        p[1], p[2], old[0][3:], st.result[3:])))
+                last_eq[key] = (st.result, snap)
         prev = st
     return out
 
@@ -741,6 +754,35 @@ def oracle_ssz(cfg, ops, steps):
     return out
 
 
+def _oracle_roundtrip(which):
+    dec_ops = {'ssz': ('ssz_list', 'ssz_vec'), 'serde': ('serde_list', 'serde_vec')}[which]
+
+    def oracle(cfg, ops, steps):
+        """C12 / C13 round trip: a collection obtained by decoding compares equal (in both directions) to any flushed
+        collection of the same type that shows the same elements - in particular to the original whose encoding it was,
+        however that original was built."""
+        out = []
+        decoded = set()
+        for st, op in zip(steps, ops):
+            p = op.split()
+            if p[0] in dec_ops and st.result == 'ok':
+                decoded.add(p[1])
+            elif p[0] == 'eq' and len(p) == 3 and st.result in ('ok:true', 'ok:false') and (p[1] in decoded or p[2] in decoded):
+                a, b = st.O.get(p[1]), st.O.get(p[2])
+                if a is not None and b is not None and a.get('pend') == '0' and b.get('pend') == '0' and a.get('kind') == b.get('kind') \
+                        and a.get('vals') == b.get('vals') and a.get('len') == b.get('len') and st.result == 'ok:false':
+                    out.append(Finding(st.n, '`%s`: the decoded collection (%s) does not compare equal to a flushed collection showing the same elements' % (
+                        op, p[1] if p[1] in decoded else p[2])))
+            elif p[0] not in ('get', 'len', 'iter_from', 'level_iter', 'eq', 'ssz_enc', 'serde_ser', 'hash', 'cow_read', 'par_hash', 'par_mix'):
+                # anything that writes a register ends its "freshly decoded" status (a clone of it is not tracked either)
+                for r in targets(op):
+                    decoded.discard(r)
+                if p[0] in ('clone', 'to_vector', 'to_list', 'rebase') and len(p) >= 3:
+                    decoded.discard(p[-1])
+        return out
+    return oracle
+
+
 def oracle_serde(cfg, ops, steps):
     """C13: the serde form is the sequence of elements the collection shows; a sequence is accepted exactly within the
     bounds and then the collection shows it"""
@@ -771,4 +813,5 @@ ORACLES = {
     'wellformed': oracle_wellformed, 'error_preserves': oracle_error_preserves, 'memo': oracle_memo,
     'canonical': oracle_canonical, 'sharing': oracle_sharing, 'cost': oracle_cost, 'builder': oracle_builder,
     'isolation': oracle_isolation, 'unchanged': oracle_unchanged, 'root': oracle_root, 'eq': oracle_eq, 'ssz': oracle_ssz, 'serde': oracle_serde, 'capacity': oracle_capacity, 'suffix': oracle_suffix, 'par': oracle_par,
+    'roundtrip_ssz': _oracle_roundtrip('ssz'), 'roundtrip_serde': _oracle_roundtrip('serde'),
 }
